@@ -6,7 +6,11 @@ HOOK_COMMITS = ["d85c6ee", "170bde9", "43ffa35", "8043914", "4c6f2d6", "8d2eb59"
 
 # id -> (engine, category, technique, level text, level note, design ref)
 CHECKS = {
- "C13": ("E1-simnet-explorer", "model_checking",
+ "C01": ("E1-simnet-explorer", "model_checking",
+   "exhaustive enumeration of small real-node networks (shapes, join orders, writer/reader pairs, data kinds, IP plans) crossed with every admissible crash set, on the simulated network",
+   "Networks of 1..3 servers + 0..1 clients (quick) / 1..4 + 0..2 (thorough) built by real joins: for every (writer, reader) pair and each of six data kinds the put runs through the public API, the acknowledging set is read from the datagram log, every crash set that leaves an acknowledging node other than the reader alive (and the reader a live contact) is applied in its own world, and the reader's public-API lookup must return the value; variants with a reader lookup already in flight, a lookup 60 s later and two overlapping callers; thorough adds single latency deviations and fixed 20- and 50-node shapes.",
+   "Honest nodes, latencies below the request timeout; the 50..300-node success-rate clause is statistical and not decided.", "DESIGN.md section 6, C01"),
+  "C13": ("E1-simnet-explorer", "model_checking",
    "exhaustive enumeration of join orders, start timings, bootstrap-list shapes and IP plans over networks of real nodes on the simulated network",
    "Networks of 1..3 (quick) / 1..4 (thorough) real server nodes plus fixed 8- and 20-node shapes: every permutation of id classes over join positions x 5 start timings x 4 bootstrap-list shapes x public/private plan; bootstrapped() results, table contents, strong connectivity of the knows-graph, 'every lookup asks every server' (from the datagram log) and the dead-list verdict are checked on every network.",
    "Loss-free network; sizes above 20 not explored.", "DESIGN.md section 6, C13"),
